@@ -520,6 +520,9 @@ int main(int argc, char **argv) {
           if (countdown_timer_vars.items[i].channel_number != 255)
             sdk_out("ITEM %d %u %u", i, countdown_timer_vars.items[i].channel_number, countdown_timer_vars.items[i].time_left_ms);
         sdk_out("DELAY %u", countdown_timer_vars.delay_ms);
+        fprintf(stdout, "T2L");
+        for (int i = 0; i < STATE_CFG_TIME2_COUNT; i++) fprintf(stdout, " %u", (unsigned)supla_esp_state.Time2Left[i]);
+        fputc('\n', stdout);
       } else if (!strcmp(op, "debprobe") && ops_ntok == 3) { /* input index, sampled levels as a 0/1 string */
         int i = atoi(ops_tok[1]);
         if (i < 0 || i >= INPUT_MAX_COUNT || supla_input_cfg[i].gpio_id > 15) sdk_out("BADOP");
